@@ -10,12 +10,12 @@ X64 = True
 SHRINK = {'quick': 10, 'thorough': 60}
 RULE = (
     'conservative generator models (no damping, no limits, no actuators, joint springs allowed, arbitrary gravity vector, exact '
-    'mass-matrix inverse; any roots for energy, free roots for momentum; any hinge/slide stacks, also non-orthogonal) x K initial '
+    'mass-matrix inverse, armature on any joint; any roots for energy, free roots for momentum; any hinge/slide stacks, also non-orthogonal) x K initial '
     'states with |qd| <= 1, integrated over a fixed horizon of 0.064 s with dt = 1e-3, 5e-4, 2.5e-4, 1.25e-4 through one compiled '
     'fori_loop. Oracle: twice-Richardson-extrapolated zero-step drift of E = KE + PE_gravity + PE_springs, and of P - M g t per free '
-    'tree, is zero to 1e-5 relative, and the drift at dt/4 is at most 0.6 of the drift at dt/2. Non-trivial: KE_0 > 1e-3 and a '
+    'tree, is zero to 1e-5 relative - E evaluated both through the state\'s own mass matrix and, independently, by MuJoCo (mjENBL_ENERGY) for the same document at the start and end states - and the drift at dt/4 is at most 0.6 of the drift at dt/2. Non-trivial: KE_0 > 1e-3 and a '
     'non-free joint or a spring. Distinct: hash of (topology, rounded q, qd).')
-ASSUMPTIONS = ['kinetic energy is read through the state\'s own mass matrix (its correctness is C02\'s business)',
+ASSUMPTIONS = ['energy is evaluated twice: through the state\'s own mass matrix, and as MuJoCo evaluates it for the same document at the start and end states',
                'linear momentum of a free tree is read as (mass_mx @ qd)[root linear dofs], the momentum conjugate to the root translation',
                'runs whose velocity exceeds 1e3 or turns non-finite are counted diverged_not_compared']
 TOLERANCES = {'extrapolated_drift': '1e-5*(|KE0| + |d(h)|) + 1e-9 + 2*|R2(h,h/2,h/4) - R2(h/2,h/4,h/8)| (measured worst 3e-7 relative: the h^3 term left by two Richardson steps)', 'halving': '|d(h/4)| <= 0.6 |d(h/2)| + floor'}
@@ -24,7 +24,7 @@ DTS = [1e-3 / 2 ** i for i in range(4)]
 
 
 def prof(root):
-  return modelgen.profile(passive=False, springs=True, limits='none', actuators='none', root=root, max_bodies=4, gravity='any')
+  return modelgen.profile(passive=False, springs=True, limits='none', actuators='none', root=root, max_bodies=4, gravity='any', armature_only=True)
 
 
 def check(case, ctx=None):
@@ -33,7 +33,16 @@ def check(case, ctx=None):
   gp = m['generalized']
   spec, states = case['spec'], case['states']
   xml = modelgen.to_xml(spec)
-  phys.load_mj(xml)
+  mjm = phys.load_mj(xml)
+  mj = m['mujoco']
+  mjm.opt.enableflags |= int(mj.mjtEnableBit.mjENBL_ENERGY)
+  mjd = mj.MjData(mjm)
+
+  def mj_energy(q_, qd_):
+    # the mechanical energy as the *model* defines it (kinetic incl. armature + gravity + joint springs), from MuJoCo
+    mjd.qpos[:], mjd.qvel[:] = np.asarray(q_, float), np.asarray(qd_, float)
+    mj.mj_forward(mjm, mjd)
+    return float(mjd.energy[0] + mjd.energy[1])
   sys = phys.load_brax(xml)
   s = phys.check_structure(sys, spec)
   q, qd, _ = phys.arr_states(states)
@@ -69,18 +78,22 @@ def check(case, ctx=None):
     e0, ke0, p0 = measures(sy, st)
     st = jax.lax.fori_loop(0, n, lambda i, s_: gp.step(sy, s_, jp.zeros(sys.act_size())), st)
     e1, _, p1 = measures(sy, st)
-    return e1 - e0, ke0, p1 - p0, jp.max(jp.abs(st.qd))
+    return e1 - e0, ke0, p1 - p0, jp.max(jp.abs(st.qd)), st.q, st.qd
 
   f = jax.jit(jax.vmap(run, in_axes=(0, 0, None, None)))
-  de, dp, vmax = [], [], []
+  de, dp, vmax, de_mj = [], [], [], []
   ke0 = None
+  e0_mj = np.array([mj_energy(q[i], qd[i]) for i in range(k)])
   for dt in DTS:
     n = int(round(H / dt))
-    a, ke0, b, v = f(jp.array(q), jp.array(qd), dt, n)
+    a, ke0, b, v, q1, qd1 = f(jp.array(q), jp.array(qd), dt, n)
     de.append(np.asarray(a))
+    q1, qd1 = np.asarray(q1), np.asarray(qd1)
+    de_mj.append(np.array([mj_energy(q1[i], qd1[i]) - e0_mj[i] if np.all(np.isfinite(q1[i])) and np.all(np.isfinite(qd1[i])) else np.nan
+                           for i in range(k)]))
     dp.append(np.asarray(b) - tree_mass[None, :, None] * np.array(spec['gravity'])[None, None, :] * H if lin else np.zeros((k, 0, 3)))
     vmax.append(np.asarray(v))
-  de, dp, vmax, ke0 = np.array(de), np.array(dp), np.array(vmax), np.asarray(ke0)
+  de, dp, vmax, ke0, de_mj = np.array(de), np.array(dp), np.array(vmax), np.asarray(ke0), np.array(de_mj)
   fps, worst = [], {}
   has_joint = any(not b['free'] for b in spec['bodies']) or any(c > 0 for _, c in jq)
   for i in range(k):
@@ -89,6 +102,19 @@ def check(case, ctx=None):
       if ctx is not None:
         ctx.count('diverged_not_compared')
       continue
+    # the same two assertions on the energy as the model defines it (independent of the state's own mass matrix)
+    dm = de_mj[:, i]
+    if np.all(np.isfinite(dm)):
+      r1m = [2 * dm[j + 1] - dm[j] for j in range(3)]
+      r2m = [(4 * r1m[j + 1] - r1m[j]) / 3 for j in range(2)]
+      scale_m = abs(ke0[i]) + abs(dm[0])
+      errm = abs(r2m[0] - r2m[1])
+      worst['model_energy_R2_rel'] = max(worst.get('model_energy_R2_rel', 0.0), max(0.0, abs(r2m[1]) - 2 * errm) / (scale_m + 1e-4))
+      worst['model_vs_state_energy_drift'] = max(worst.get('model_vs_state_energy_drift', 0.0), float(np.abs(dm - de[:, i]).max()) / (scale_m + 1e-4))
+      if not abs(r2m[1]) <= 1e-5 * scale_m + 1e-9 + 2 * errm:
+        raise Violation('energy_consistency', f'state {i}: drift of the mechanical energy defined by the model (kinetic incl. armature + gravity + joint springs, '
+                        f'evaluated by MuJoCo at the start and end states) over {H}s at dt/1,2,4,8 = {dm.tolist()}; extrapolated to dt->0: {r2m[1]:.3e} '
+                        f'(KE0 {ke0[i]:.3e}): the energy is not conserved in the small-step limit', labels={'check': 'model_energy'})
     d = de[:, i]
     r1 = [2 * d[j + 1] - d[j] for j in range(3)]
     r2 = [(4 * r1[j + 1] - r1[j]) / 3 for j in range(2)]
